@@ -140,6 +140,28 @@ impl<R: Read> Read for AesReaderValid<R> {
     /// practically unusable, since its position after the error is not known.
     fn read(&mut self, buf: &mut [u8]) -> io::Result<usize> {
         if self.data_remaining == 0 {
+            // An entry without ciphertext still carries an authentication code, and nothing else
+            // vouches for "this entry is empty" (the declared size is not authenticated): check the
+            // code before reporting end-of-file. With ciphertext, the code has been checked by the
+            // call that consumed the last byte.
+            if !self.finalized {
+                self.finalized = true;
+
+                let mut read_auth_code = [0; AUTH_CODE_LENGTH];
+                self.reader.read_exact(&mut read_auth_code)?;
+                let computed_auth_code =
+                    &self.hmac.finalize_reset().into_bytes()[0..AUTH_CODE_LENGTH];
+
+                // use constant time comparison to mitigate timing attacks
+                if !constant_time_eq(computed_auth_code, &read_auth_code) {
+                    return Err(
+                        io::Error::new(
+                            io::ErrorKind::InvalidData,
+                            "Invalid authentication code, this could be due to an invalid password or errors in the data"
+                        )
+                    );
+                }
+            }
             return Ok(0);
         }
 
